@@ -1090,14 +1090,12 @@ Proof.
   constructor; [apply block_okb_ok; vm_compute; reflexivity|constructor].
 Qed.
 
-(* D6: the body raises an Exception: nothing is undone *)
-Lemma ex_D6 :
+(* the case that exhibited D6 (two nested blocks, an Exception raised in the inner body): every block is entered *)
+Lemma ex_exception_run :
   let '(st', evs, oc) := run_blocks (mkExc XExc 1 true) [ex_b1; ex_b2] 0 ex_st in
-  enters_ok evs /\ ~ all_sloteq st' ex_st.
+  enters_ok evs /\ oc = ORaise EInject /\ List.length evs = 4%nat.
 Proof.
-  vm_compute run_blocks. split.
-  - repeat constructor; cbn; congruence.
-  - intros H. specialize (H 0%Z). vm_compute in H. destruct H as (_ & _ & H). specialize (H "w"). vm_compute in H. discriminate.
+  vm_compute run_blocks. split; [repeat constructor; cbn; congruence|split; reflexivity].
 Qed.
 
 (* D131: a buffer name given an nn.Parameter, normal exit: the buffer ends in __dict__ *)
@@ -1149,11 +1147,19 @@ Definition restore_on_exception_statement : Prop :=
     run_blocks x bs lvl st = (st', evs, oc) ->
     Forall (block_ok (t_heap st)) bs -> wf_heap (t_heap st) -> enters_ok evs -> all_sloteq st' st.
 
-Theorem restore_on_exception_refuted : ~ restore_on_exception_statement.
+Theorem restore_on_exception : restore_on_exception_statement.
 Proof.
-  intros H. pose proof ex_D6 as HD. destruct ex_hyps as (Hok & Hwf).
+  intros x bs lvl st st' evs oc Hrun Hok Hwf Hen. unfold run_blocks in Hrun.
+  exact (proj1 (restore_fixed x bs lvl st st' evs oc Hrun Hok Hwf Hen)).
+Qed.
+
+(* and on the example: the program that used to leave the module swapped *)
+Lemma ex_exception_restored :
+  let '(st', evs, oc) := run_blocks (mkExc XExc 1 true) [ex_b1; ex_b2] 0 ex_st in all_sloteq st' ex_st.
+Proof.
+  pose proof ex_exception_run as HD. destruct ex_hyps as (Hok & Hwf).
   destruct (run_blocks (mkExc XExc 1 true) [ex_b1; ex_b2] 0 ex_st) as [[st' evs] oc] eqn:E.
-  destruct HD as (Hen & Hne). apply Hne. exact (H _ _ _ _ _ _ _ E Hok Hwf Hen).
+  destruct HD as (Hen & _). exact (restore_on_exception _ _ _ _ _ _ _ E Hok Hwf Hen).
 Qed.
 
 (* the restore statement without the side condition on buffer names *)
@@ -1199,29 +1205,15 @@ Proof.
         (repeat split; intros; dsimp; reflexivity).
 Qed.
 
-(* D132: use_state_dict=True: after a normal exit the module holds re-wrapped Parameter objects *)
+(* use_state_dict=True (D132 repaired) and swap_dest= (D133 repaired) on the example heap: normal exit, the heap is back *)
 Definition ex_b5 := mkBlock 0 None true false false (PTD [("w", PLeaf (Some (oT 11)))]).
-Lemma ex_D132 :
-  let '(st', evs, oc) := run_blocks (mkExc XNone 0 false) [ex_b5] 0 (mkSt ex_heap4 ex_vals FRESH_BASE) in
-  Forall (fun e => ev_out e = OOk) evs /\ ~ all_sloteq st' (mkSt ex_heap4 ex_vals FRESH_BASE)
-  /\ exists n', hg st' 0%Z = Some n'
-       /\ match d_get (m_params n') "w" with Some (Some o) => ostor o = 1%Z /\ okd o = KParam /\ oid o <> 1%Z | _ => False end.
-Proof.
-  vm_compute run_blocks. split; [repeat constructor|]. split.
-  - intros H. specialize (H 0%Z). vm_compute in H. destruct H as (_ & _ & H). specialize (H "w"). vm_compute in H. discriminate.
-  - eexists. split; [vm_compute; reflexivity|]. vm_compute. repeat split; discriminate.
-Qed.
-
-(* D133: a block entered with swap_dest=...: the exit raises TypeError and nothing is undone *)
 Definition ex_b6 := mkBlock 0 None false true false (PTD [("w", PLeaf (Some (oT 11)))]).
-Lemma ex_D133 :
-  let '(st', evs, oc) := run_blocks (mkExc XNone 0 false) [ex_b6] 0 (mkSt ex_heap4 ex_vals FRESH_BASE) in
-  oc = ORaise ETypeError /\ enters_ok evs /\ ~ all_sloteq st' (mkSt ex_heap4 ex_vals FRESH_BASE).
-Proof.
-  vm_compute run_blocks. split; [reflexivity|]. split.
-  - repeat constructor; cbn; congruence.
-  - intros H. specialize (H 0%Z). vm_compute in H. destruct H as (_ & _ & H). specialize (H "w"). vm_compute in H. discriminate.
-Qed.
+Lemma ex_usd_swap_dest_run :
+  (let '(st', evs, oc) := run_blocks (mkExc XNone 0 false) [ex_b5] 0 (mkSt ex_heap4 ex_vals FRESH_BASE) in
+   oc = OOk /\ t_heap st' = ex_heap4)
+  /\ (let '(st', evs, oc) := run_blocks (mkExc XNone 0 false) [ex_b6] 0 (mkSt ex_heap4 ex_vals FRESH_BASE) in
+      oc = OOk /\ t_heap st' = ex_heap4).
+Proof. split; vm_compute; split; reflexivity. Qed.
 
 (* isolation of one plain to_module call: no tensor content is written, no module outside the visited ones (memo) is
    touched, _modules and module types never change *)
